@@ -165,13 +165,14 @@ def multipleOf(validator, dB, instance, schema):
         return
 
     if isinstance(dB, float):
-        quotient = instance / dB
         try:
+            quotient = instance / dB
             failed = int(quotient) != quotient
         except OverflowError:
             # When `instance` is large and `dB` is less than one,
             # quotient can overflow to infinity; and then casting to int
-            # raises an error.
+            # raises an error.  An integer `instance` too large to be
+            # converted to a float makes the division itself raise.
             #
             # In this case we fall back to Fraction logic, which is
             # exact and cannot overflow.  The performance is also
@@ -181,7 +182,12 @@ def multipleOf(validator, dB, instance, schema):
             # for already-slow enormous integers or Decimals.
             failed = (Fraction(instance) / Fraction(dB)).denominator != 1
     else:
-        failed = instance % dB
+        try:
+            failed = instance % dB
+        except OverflowError:
+            # a float ``instance`` and an integer ``dB`` too large to be
+            # converted to a float: same exact fallback as above
+            failed = (Fraction(instance) / Fraction(dB)).denominator != 1
 
     if failed:
         yield ValidationError("%r is not a multiple of %r" % (instance, dB))
